@@ -158,6 +158,7 @@ def run(ctx: core.Ctx) -> core.Outcome:
             viols.append(core.Violation(key=clause, case=f"{e['scenario']} {e['kind']} at {e['point']}#{e['occurrence']}", detail=str(e),
                                         replay={"event": e, "method": SCENARIOS[e["scenario"]]}))
     cov = dict(states=ok.distinct, transitions=ok.generated, design_spec="TickAtomic", race_found_without_lock=not race.ok,
+               traces_validated_against_impl=len(evs), samples=evs[:2],
                points=points, experiments=len(evs), ran_inside=sum(1 for e in evs if e["ranInside"]),
                outcomes={o: sum(1 for e in evs if e["outcome"] == o) for o in ("request-then-tick", "tick-then-request", "neither")}, **stats)
     return core.Outcome(level="model_checking", coverage=cov, violations=viols, assumptions=[
